@@ -597,6 +597,19 @@ pub fn run_inputs(opts: &Opts, only: Option<Vec<Vec<u8>>>) -> Run {
                 }
                 run.stat("valid_frames_to_model", 1);
             }
+        } else if bytes.len() < 20_000 && outs.iter().all(|o| o.panic.is_none()) {
+            // ---- the model's block decoder is the faithful one (Lean `Blk.decompressBlock`, instance B): every small
+            // hostile input goes through one short program too, so that model = code is compared with the error
+            // CLASS (errmap.rs) and the state left behind on the structure-aware hostile frames, the directed ones,
+            // the mutated frames and the random bytes.  (After the error: drain only — decoding on in a failed frame is
+            // outside the documented use.)
+            let mut p = Prog::new(&mut run, label);
+            p.set_src(bytes.clone(), vec![], None);
+            if p.reset() {
+                p.blocks("all");
+                p.collect();
+            }
+            run.stat("hostile_inputs_to_model", 1);
         }
         if shown < 4 && idx % 97 == 0 {
             run.samples.push(format!("{} ({} bytes): {}", label, bytes.len(), outs.iter().map(|o| format!("{}={}", o.what, o.err.clone().unwrap_or_else(|| format!("ok {}", o.output.as_ref().map(|v| v.len()).unwrap_or(0))))).collect::<Vec<_>>().join("; ")));
